@@ -109,6 +109,17 @@ def spec (cls : String) (k : Key) : List (List Use) :=
   | "Pattern", "multipliers" => [[.ctor "pattern"]]
   | "Source", "strength" => [[.ctor "quality"]]
   | "Source", "name" | "Pattern", "name" => [[.ctor "0", .ctor "name"]]
+  -- the dictionary itself (Gen/SchemaSections.lean): name / references are assigned, options go through
+  -- `wn.options.__init__(**d["options"])`, the element sections are looped over
+  | "Model", "name" => [[.assign "name"]]
+  | "Model", "references" => [[.assign "_references"]]
+  | "Model", "options" => [[.ctor "options.__init__"]]
+  | "Model", _ => [[.ctor "loop"]]
+  -- a control entry: the branch is chosen on `type`; every key of a rule goes into the rule text that is re-parsed
+  | "Control:rule", "type" | "Control:simple", "type" => [[.dispatch]]
+  | "Control:rule", _ => [[.ctor "rule_text"]]
+  | "Control:simple", "condition" => [[.ctor "condition"]]
+  | "Control:simple", "then_actions" => [[.ctor "action"]]
   | _, "name" => [[.ctor "0", .ctor "name"]]
   | _, "start_node_name" => [[.ctor "1", .ctor "start_node_name"]]
   | _, "end_node_name" => [[.ctor "2", .ctor "end_node_name"]]
@@ -120,6 +131,7 @@ def spec (cls : String) (k : Key) : List (List Use) :=
 def constKeys : String → List Key
   | "Reservoir" => ["leak", "leak_area", "leak_discharge_coeff"]
   | "Pipe" => ["initial_setting"]
+  | "Model" => ["version", "comment"]  -- written by to_dict from the package version / a fixed sentence
   | _ => []
 
 def ClassTable.dfltOf (t : ClassTable) (k : Key) : String := lookupD t.defaults k "null"
